@@ -25,6 +25,8 @@ RULES = {
     "mark": ["pos base a <anchor 100 500> mark @MC_user;"],
     "mkmk": ["pos mark acutecomb <anchor 0 700> mark @MC_user;"],
     "curs": ["pos cursive beh-ar <anchor 400 0> <anchor 0 0>;"],
+    "abvm": ["pos base ka-deva <anchor 250 620> mark @MC_deva;"],
+    "blwm": ["pos base ka-deva <anchor 250 -20> mark @MC_devb;"],
     "liga": ["sub f i by f_i;"],
     "ss01": ["sub a by a.alt;"],
 }
@@ -62,7 +64,8 @@ def _block(rng, tag):
 def _font(rng):
     P = 1024
     names = [("A", 0x41), ("V", 0x56), ("a", 0x61), ("f", 0x66), ("i", 0x69), ("period", 0x2E), ("acutecomb", 0x301),
-             ("beh-ar", 0x628), ("lam-ar", 0x644), ("f_i", None), ("a.alt", None)]
+             ("beh-ar", 0x628), ("lam-ar", 0x644), ("f_i", None), ("a.alt", None),
+             ("ka-deva", 0x915), ("anusvara-deva", 0x902), ("nukta-deva", 0x93C)]
     glyphs = {}
     for n, cp in names:
         anchors = []
@@ -70,18 +73,25 @@ def _font(rng):
             anchors.append({"n": "top", "x": 200 * P, "y": 600 * P})
         if n == "acutecomb":
             anchors += [{"n": "_top", "x": 0, "y": 500 * P}, {"n": "top", "x": 0, "y": 700 * P}]
+        if n == "ka-deva":
+            anchors += [{"n": "top", "x": 250 * P, "y": 600 * P}, {"n": "bottom", "x": 250 * P, "y": 0}]
+        if n == "anusvara-deva":
+            anchors.append({"n": "_top", "x": 0, "y": 560 * P})
+        if n == "nukta-deva":
+            anchors.append({"n": "_bottom", "x": 0, "y": -40 * P})
         if n.endswith("-ar"):
             anchors += [{"n": "entry", "x": 400 * P, "y": 0}, {"n": "exit", "x": 0, "y": 0}]
         if n == "f_i" and rng.random() < 0.6:
             anchors.append({"n": "caret_1", "x": 250 * P, "y": 0})
             if rng.random() < 0.3:
                 anchors.append({"n": "vcaret_1", "x": 0, "y": 300 * P})
-        glyphs[n] = {"cs": [layout_gen.box()], "comps": [], "anchors": anchors, "w": (0 if n == "acutecomb" else 500) * P, "h": 0,
+        glyphs[n] = {"cs": [layout_gen.box()], "comps": [], "anchors": anchors, "w": (0 if n in ("acutecomb", "anusvara-deva", "nukta-deva") else 500) * P, "h": 0,
                      "u": [cp] if cp else []}
     return {"glyphs": glyphs, "order": [n for n, _ in names], "glyphNames": [n for n, _ in names],
             "info": {"unitsPerEm": 1000, "ascender": 800, "descender": -200, "familyName": "FeaTest", "styleName": "Regular"},
             "kerning": [["A", "V", -160], ["V", "A", -120], ["lam-ar", "beh-ar", 40]], "kernScale": 4,
-            "lib": {"public.openTypeCategories": {"acutecomb": "mark", "a": "base", "A": "base", "f_i": "ligature"}}}
+            "lib": {"public.openTypeCategories": {"acutecomb": "mark", "a": "base", "A": "base", "f_i": "ligature", "ka-deva": "base",
+                                                 "anusvara-deva": "mark", "nukta-deva": "mark"}}}
 
 
 def cases(tier, seed):
@@ -92,11 +102,14 @@ def cases(tier, seed):
         ufo = _font(rng)
         parts = []
         if rng.random() < 0.7:
-            parts.append("languagesystem DFLT dflt;\nlanguagesystem latn dflt;" + ("\nlanguagesystem arab dflt;" if rng.random() < 0.5 else ""))
+            parts.append("languagesystem DFLT dflt;\nlanguagesystem latn dflt;" + ("\nlanguagesystem arab dflt;" if rng.random() < 0.5 else "")
+                         + ("\nlanguagesystem dev2 dflt;" if rng.random() < 0.5 else ""))
         if rng.random() < 0.5:
             parts.append("@UC = [A V];")
         parts.append("markClass acutecomb <anchor 0 500> @MC_user;")
-        tags = rng.sample(["kern", "mark", "mkmk", "curs", "liga", "ss01"], rng.randint(0, 4))
+        parts.append("markClass anusvara-deva <anchor 0 560> @MC_deva;\nmarkClass nukta-deva <anchor 0 -40> @MC_devb;")
+        tags = rng.sample(["kern", "mark", "mkmk", "curs", "liga", "ss01", "abvm", "blwm", "abvm"], rng.randint(0, 4))
+        tags = list(dict.fromkeys(tags))
         if rng.random() < 0.2 and tags:
             tags.append(tags[0])           # a repeated block of one tag
         if rng.random() < 0.3:
@@ -186,4 +199,4 @@ def preclassify(rec, rep):
 
 
 def nontrivial(rec):
-    return any(b["kind"] == "feature" and b["tag"] in ("kern", "mark", "mkmk", "curs") for b in rec["user"])
+    return any(b["kind"] == "feature" and b["tag"] in ("kern", "mark", "mkmk", "curs", "abvm", "blwm") for b in rec["user"])
